@@ -37,6 +37,7 @@ import LiquerProofs.Lemmas.ConcO6
 import LiquerProofs.Lemmas.EvalCor
 import LiquerProofs.Lemmas.EvalExample
 import LiquerProofs.Lemmas.ConcFile3
+import LiquerProofs.Lemmas.ConcFileT3
 
 namespace Liquer.C12
 
@@ -544,5 +545,184 @@ example (n : Nat) :
 end Liquer.C12
 
 
+/-! ## file-operation granularity, `StoreCache` on a `FileStore` (directory tree)
+
+The same question for the store-backed cache on a directory store.  `StoreCache.store(state)` issues exactly
+`FileStore.store(to_path(key), bytes, metadata)`, `StoreCache.store_metadata` issues `FileStore.store_metadata`.  Model:
+`LiquerModel/ConcFileT.lean` — `storeStepsTN` / `storeMetaStepsTN` are the file operations of these two calls as STATIC lists with the
+writer's OWN temporary names (`.tmp a`, the key `a` is the label of the `tmp_<uuid4>` file): `mkdir` of every directory above the path
+(`execT`: a no-op on an existing name, `exist_ok=True`), `unlink` of the old metadata file (a no-op on a missing name), `mkdir` of the
+hidden folder, data through a temporary + `rename`, metadata through a temporary + `rename`; `runPrefixT n l t0` is the tree after the
+first `n` file operations of the interleaving `l`; `readSC` is what a fresh `StoreCache` on a fresh `FileStore` reads (as in C16).  The
+lists are tied to the lists `storeStepsT` / `storeMetaStepsT` of the crash model (which the C16 crash replay validates against the
+code) by `tree_steps_link_run`, for every tree.
+Unlike `FileCache.store`, `FileStore.store` does not remove the old data file: it stays until the first `rename` replaces it.  Every
+writer unlinks the metadata file BEFORE it publishes its data, so when the first data `rename` happens the old metadata is gone: old
+metadata never meets new data (`Lemmas/ConcFileT2.lean`, invariant `GT`).  A later `unlink` by the other writer may hide a complete
+entry again (a miss), which is allowed.
+Proof: `Lemmas/ConcFileT1.lean` (link, names, frame of other paths), `ConcFileT2.lean` (invariant), `ConcFileT3.lean`. -/
+
+namespace Liquer.C12
+open Liquer Liquer.Crash
+
+/-- **two concurrent `StoreCache.store` of one path on a `FileStore`**: writers A and B of the same path `p` with the same data bytes
+`b` (concurrent evaluations of one key are deterministic) and metadata bytes `mbA`, `mbB` that decode to ready records `mA`, `mB`
+under which `b` decodes to the value `v`; four pairwise distinct temporary labels; started on ANY tree `t0` (nothing is assumed: it
+may hold an old entry with other bytes, a directory or nothing at `p`, files at the places of the directories above `p`, files
+named like the temporaries; `p` is any key — `p ∉ ancestors p` is a theorem).
+After EVERY prefix (`n` file operations) of EVERY interleaving `l` of their file operations a reader of `p` obtains what it obtained
+from `t0` (the old entry, or a miss), or a miss, or the complete new data with A's or with B's ready metadata — never a truncated
+or mixed value (in particular never old metadata with new data); and EVERY other path `p' ≠ p` — also the directories above `p`,
+which the writers may create — reads exactly as in `t0`. -/
+theorem tree_writers_serializable (deM : Data → Option CMeta) (deD : Str → Data → Option (Option Str)) (t0 : Tree) (p : Key)
+    (b mbA mbB : Data) (mA mB : CMeta) (v : Option Str)
+    (hMA : deM mbA = some mA) (hAr : mA.status = ready) (hAv : deD mA.typeId b = some v)
+    (hMB : deM mbB = some mB) (hBr : mB.status = ready) (hBv : deD mB.typeId b = some v)
+    (a1 a2 b1 b2 : Key) (hdist : [a1, a2, b1, b2].Nodup) (l : List (Step SName))
+    (hl : Interleave (storeStepsTN (.tmp a1) (.tmp a2) p b mbA) (storeStepsTN (.tmp b1) (.tmp b2) p b mbB) l) (n : Nat) :
+    (readSC deM deD (runPrefixT n l t0) p = readSC deM deD t0 p ∨
+     readSC deM deD (runPrefixT n l t0) p = none ∨
+     readSC deM deD (runPrefixT n l t0) p = some { metadata := mA, data := v } ∨
+     readSC deM deD (runPrefixT n l t0) p = some { metadata := mB, data := v }) ∧
+    ∀ p', p' ≠ p → readSC deM deD (runPrefixT n l t0) p' = readSC deM deD t0 p' :=
+  twriters2 deM deD t0 p b mbA mbB mA mB v hMA hAr hAv hMB hBr hBv a1 a2 b1 b2 hdist l hl n
+
+/-- **progress records are harmless**: the same with a third thread that writes a metadata record for the path
+(`store_metadata`) whose bytes `mbP` do not decode to a ready record (`m.status ≠ ready` is what the repaired evaluator guarantees,
+repo fix cb22d87; bytes that do not decode at all are covered too), under every three-way interleaving of the file operations -/
+theorem tree_writers_progress_harmless (deM : Data → Option CMeta) (deD : Str → Data → Option (Option Str)) (t0 : Tree) (p : Key)
+    (b mbA mbB mbP : Data) (mA mB : CMeta) (v : Option Str)
+    (hMA : deM mbA = some mA) (hAr : mA.status = ready) (hAv : deD mA.typeId b = some v)
+    (hMB : deM mbB = some mB) (hBr : mB.status = ready) (hBv : deD mB.typeId b = some v)
+    (hP : ∀ m, deM mbP = some m → m.status ≠ ready)
+    (a1 a2 b1 b2 tp : Key) (hdist : [a1, a2, b1, b2, tp].Nodup) (l : List (Step SName))
+    (hl : Interleave3 (storeStepsTN (.tmp a1) (.tmp a2) p b mbA) (storeStepsTN (.tmp b1) (.tmp b2) p b mbB)
+      (storeMetaStepsTN (.tmp tp) p mbP) l) (n : Nat) :
+    (readSC deM deD (runPrefixT n l t0) p = readSC deM deD t0 p ∨
+     readSC deM deD (runPrefixT n l t0) p = none ∨
+     readSC deM deD (runPrefixT n l t0) p = some { metadata := mA, data := v } ∨
+     readSC deM deD (runPrefixT n l t0) p = some { metadata := mB, data := v }) ∧
+    ∀ p', p' ≠ p → readSC deM deD (runPrefixT n l t0) p' = readSC deM deD t0 p' :=
+  twriters3 deM deD t0 p b mbA mbB mbP mA mB v hMA hAr hAv hMB hBr hBv hP a1 a2 b1 b2 tp hdist l hl n
+
+/-- one store writer and one progress writer: what the reader obtained before, a miss, or the complete new state -/
+theorem tree_writer_and_progress (deM : Data → Option CMeta) (deD : Str → Data → Option (Option Str)) (t0 : Tree) (p : Key)
+    (b mb mbP : Data) (m : CMeta) (v : Option Str)
+    (hM : deM mb = some m) (hr : m.status = ready) (hv : deD m.typeId b = some v)
+    (hP : ∀ m, deM mbP = some m → m.status ≠ ready)
+    (a1 a2 tp : Key) (hdist : [a1, a2, tp].Nodup) (l : List (Step SName))
+    (hl : Interleave (storeStepsTN (.tmp a1) (.tmp a2) p b mb) (storeMetaStepsTN (.tmp tp) p mbP) l) (n : Nat) :
+    (readSC deM deD (runPrefixT n l t0) p = readSC deM deD t0 p ∨
+     readSC deM deD (runPrefixT n l t0) p = none ∨
+     readSC deM deD (runPrefixT n l t0) p = some { metadata := m, data := v }) ∧
+    ∀ p', p' ≠ p → readSC deM deD (runPrefixT n l t0) p' = readSC deM deD t0 p' :=
+  twriter_and_progress deM deD t0 p b mb mbP m v hM hr hv hP a1 a2 tp hdist l hl n
+
+/-- **link to the crash model (effect)**: with the crash model's temporary name, run from EVERY tree `t`, the static lists and the
+lists `storeStepsT t` / `storeMetaStepsT t` — computed from `t`, compared with the file operations of the code by the C16 crash
+replay — lead to the same tree (the crash model omits the `mkdir` of existing directories and the `unlink` of a missing metadata
+file, which are no-ops of `execT`).  No hypothesis on `t`. -/
+theorem tree_steps_link_run (t : Tree) (k : Key) (b mb : Data) :
+    (storeStepsTN (.tmp (parentKey k)) (.tmp (parentKey k)) k b mb).foldl execT t = (storeStepsT t k b mb).foldl execT t ∧
+    (storeMetaStepsTN (.tmp (parentKey k)) k mb).foldl execT t = (storeMetaStepsT t k mb).foldl execT t :=
+  ⟨storeStepsTN_run_eq_storeStepsT t k b mb, storeMetaStepsTN_run_eq_storeMetaStepsT t k mb⟩
+
+/-! ### non-vacuity, a concrete schedule, and the negative witness (shared temporary name) -/
+
+def tP : Key := [['d'], ['k']]
+def tJ : Key := [['d'], ['j']]
+/-- the label of a temporary file in the hidden folder of `d` -/
+def tL (c : Char) : Key := [['d'], ['t', c]]
+
+/-- a complete old entry at `d/k` (other data bytes, B's metadata) and an entry at `d/j` -/
+def tOld : Tree :=
+  [(.node [['d']], .dir), (.metaDir [['d']], .dir), (.node tP, .file [7]), (.mfile tP, .file [2]),
+   (.node tJ, .file [9]), (.mfile tJ, .file [1])]
+
+def tA (c1 c2 : Char) : List (Step SName) := storeStepsTN (.tmp (tL c1)) (.tmp (tL c2)) tP [4, 5] [1]
+def tB (c1 c2 : Char) : List (Step SName) := storeStepsTN (.tmp (tL c1)) (.tmp (tL c2)) tP [4, 5] [2]
+def tPr (c : Char) : List (Step SName) := storeMetaStepsTN (.tmp (tL c)) tP [3]
+/-- A: mkdir, unlink, mkdir, create, write — B: mkdir, unlink, mkdir, create — A: close, rename (data), create, write, close,
+rename (metadata) — B: the rest -/
+def tSched : List Bool :=
+  [true, true, true, true, true, false, false, false, false, true, true, true, true, true, true]
+
+-- the hypotheses of `tree_writers_serializable` / `tree_writers_progress_harmless` are satisfiable (decoders of `fCfg`)
+example : fCfg.deM [1] = some fMetaA ∧ fMetaA.status = ready ∧
+    fCfg.deD fMetaA.typeId [4, 5] = some (some [Char.ofNat 4, Char.ofNat 5]) ∧
+    fCfg.deM [2] = some fMetaB ∧ fMetaB.status = ready ∧
+    fCfg.deD fMetaB.typeId [4, 5] = some (some [Char.ofNat 4, Char.ofNat 5]) ∧
+    (∀ m, fCfg.deM [3] = some m → m.status ≠ ready) ∧
+    [tL 'a', tL 'b', tL 'c', tL 'e', tL 'p'].Nodup ∧ tJ ≠ tP ∧ [['d']] ≠ tP :=
+  ⟨by decide, by decide, by decide, by decide, by decide, by decide,
+   fun m h => by
+    have : fCfg.deM [3] = some fMetaP := by decide
+    rw [this] at h; cases h; decide,
+   by decide, by decide, by decide⟩
+
+example : tA 'a' 'b' =
+    [.mkdir (.node [['d']]), .unlink (.mfile tP), .mkdir (.metaDir [['d']]),
+     .create (.tmp (tL 'a')), .append (.tmp (tL 'a')) [4, 5], .close (.tmp (tL 'a')), .rename (.tmp (tL 'a')) (.node tP),
+     .create (.tmp (tL 'b')), .append (.tmp (tL 'b')) [1], .close (.tmp (tL 'b')), .rename (.tmp (tL 'b')) (.mfile tP)] := by decide
+
+-- with the writers' OWN temporaries the schedule `tSched` shows the old entry, then misses, then the complete new entry
+example : (List.range 23).map (fun n => (readSC fCfg.deM fCfg.deD (runPrefixT n (merge tSched (tA 'a' 'b') (tB 'c' 'e')) tOld) tP).map
+      (fun st => (st.metadata.rest, st.data))) =
+    List.replicate 2 (some (['b'], some [Char.ofNat 7])) ++ List.replicate 13 none ++
+      List.replicate 7 (some (['a'], some [Char.ofNat 4, Char.ofNat 5])) ++ [some (['b'], some [Char.ofNat 4, Char.ofNat 5])] := by
+  decide +kernel
+
+-- and the theorem applies to this schedule (every prefix; the other path and the directory above untouched)
+example (n : Nat) :
+    readSC fCfg.deM fCfg.deD (runPrefixT n (merge tSched (tA 'a' 'b') (tB 'c' 'e')) tOld) tJ = readSC fCfg.deM fCfg.deD tOld tJ ∧
+    readSC fCfg.deM fCfg.deD (runPrefixT n (merge tSched (tA 'a' 'b') (tB 'c' 'e')) tOld) [['d']] = readSC fCfg.deM fCfg.deD tOld [['d']] :=
+  have h := (tree_writers_serializable fCfg.deM fCfg.deD tOld tP [4, 5] [1] [2] fMetaA fMetaB (some [Char.ofNat 4, Char.ofNat 5])
+    (by decide) (by decide) (by decide) (by decide) (by decide) (by decide)
+    (tL 'a') (tL 'b') (tL 'c') (tL 'e') (by decide) _ (merge_interleave tSched _ _) n).2
+  ⟨h tJ (by decide), h [['d']] (by decide)⟩
+
+-- the writers also work on the empty tree (they create `d` and `d/__metadata__`), and the static list does what the crash model's does
+example : readSC fCfg.deM fCfg.deD (runPrefixT 22 (merge tSched (tA 'a' 'b') (tB 'c' 'e')) []) tP =
+      some { metadata := fMetaB, data := some [Char.ofNat 4, Char.ofNat 5] } ∧
+    AL.get (runPrefixT 22 (merge tSched (tA 'a' 'b') (tB 'c' 'e')) []) (.node [['d']]) = some .dir ∧
+    (storeStepsTN (.tmp (parentKey tP)) (.tmp (parentKey tP)) tP [4, 5] [1]).length = 11 ∧ (storeStepsT tOld tP [4, 5] [1]).length = 9 := by
+  decide +kernel
+
+/-- **negative witness** (the seeded change "temporary file named after its target", so two writers of one path share it): when
+A and B use the SAME temporary name for the data file, under the schedule `tSched` B's `open(…, "wb")` truncates the file A has just
+written; A publishes the empty file and then its ready metadata: after 15 file operations the reader is served a state with status
+`ready` whose data is a proper prefix (here: the empty prefix) of the new data — and after all 22 operations the truncated entry is
+still there.  `tree_writers_serializable` excludes exactly this for distinct names. -/
+theorem tree_shared_tmp_truncates :
+    Interleave (tA 's' 'b') (tB 's' 'e') (merge tSched (tA 's' 'b') (tB 's' 'e')) ∧
+    readSC fCfg.deM fCfg.deD (runPrefixT 15 (merge tSched (tA 's' 'b') (tB 's' 'e')) tOld) tP = some { metadata := fMetaA, data := some [] } ∧
+    fMetaA.status = ready ∧ ([] : Str) ≠ [Char.ofNat 4, Char.ofNat 5] ∧ ([] : Str) <+: [Char.ofNat 4, Char.ofNat 5] ∧
+    readSC fCfg.deM fCfg.deD (runPrefixT 22 (merge tSched (tA 's' 'b') (tB 's' 'e')) tOld) tP = some { metadata := fMetaB, data := some [] } ∧
+    readSC fCfg.deM fCfg.deD (runPrefixT 15 (merge tSched (tA 'a' 'b') (tB 'c' 'e')) tOld) tP =
+      some { metadata := fMetaA, data := some [Char.ofNat 4, Char.ofNat 5] } :=
+  ⟨merge_interleave _ _ _, by decide +kernel, rfl, by decide, by decide, by decide +kernel, by decide +kernel⟩
+
+-- a three-way schedule with a progress writer: its record hides the entry (a miss) until a store writer publishes again
+example : (List.range 29).map (fun n => (readSC fCfg.deM fCfg.deD (runPrefixT n
+      (merge3 [0, 0, 0, 0, 0, 0, 0, 0, 0, 0, 0, 2, 2, 2, 2, 2, 2] (tA 'a' 'b') (tB 'c' 'e') (tPr 'p')) tOld) tP).map
+      (fun st => st.metadata.rest)) =
+    List.replicate 2 (some ['b']) ++ List.replicate 9 none ++ List.replicate 6 (some ['a']) ++ List.replicate 11 none ++ [some ['b']] := by
+  decide +kernel
+
+-- the theorem applies to it
+example (n : Nat) :
+    let l := merge3 [0, 0, 0, 0, 0, 0, 0, 0, 0, 0, 0, 2, 2, 2, 2, 2, 2] (tA 'a' 'b') (tB 'c' 'e') (tPr 'p')
+    readSC fCfg.deM fCfg.deD (runPrefixT n l tOld) tJ = readSC fCfg.deM fCfg.deD tOld tJ :=
+  (tree_writers_progress_harmless fCfg.deM fCfg.deD tOld tP [4, 5] [1] [2] [3] fMetaA fMetaB (some [Char.ofNat 4, Char.ofNat 5])
+    (by decide) (by decide) (by decide) (by decide) (by decide) (by decide)
+    (fun m h => by
+      have : fCfg.deM [3] = some fMetaP := by decide
+      rw [this] at h; cases h; decide)
+    (tL 'a') (tL 'b') (tL 'c') (tL 'e') (tL 'p') (by decide) _ (merge3_interleave3 _ _ _ _) n).2 tJ (by decide)
+
+end Liquer.C12
+
+
 -- OBLIGATIONS: Liquer.C12.inst_registry Liquer.C12.good_answer Liquer.C12.oracle_refines Liquer.C12.oracle_frame Liquer.C12.answers_extend_trace Liquer.C12.apply_op_sound Liquer.C12.meta_remove_harmless Liquer.C12.recorded_answer_good Liquer.C12.inv_iff Liquer.C12.fresh_inv Liquer.C12.step_preserves_inv Liquer.C12.env_preserves_inv Liquer.C12.reach_preserves_inv Liquer.C12.schedule_preserves_inv Liquer.C12.schedule_reach Liquer.C12.events_preserve_inv Liquer.C12.events_reach Liquer.C12.cache_sound_every_schedule Liquer.C12.cache_values_fresh Liquer.C12.result_is_solo Liquer.C12.result_is_sequential Liquer.C12.same_query_same_result Liquer.C12.answers_are_finished Liquer.C12.never_serves_unfinished Liquer.C12.metadata_only_is_miss Liquer.C12.evalQO_agrees
 -- OBLIGATIONS: Liquer.C12.file_writers_serializable Liquer.C12.file_writers_serializable_old Liquer.C12.file_writers_progress_harmless Liquer.C12.file_writer_and_progress Liquer.C12.file_steps_link_exact Liquer.C12.file_steps_link_run Liquer.C12.file_merge_iff_interleave Liquer.C12.file_merge3_interleave3 Liquer.C12.file_nested_interleave Liquer.C12.file_shared_tmp_truncates
+-- OBLIGATIONS: Liquer.C12.tree_writers_serializable Liquer.C12.tree_writers_progress_harmless Liquer.C12.tree_writer_and_progress Liquer.C12.tree_steps_link_run Liquer.C12.tree_shared_tmp_truncates
